@@ -135,9 +135,9 @@ func checkC19(c *Ctx) (int, error) {
 		c.logf("model Lz77Window/%s: %d distinct states, %.1fs", name, res.Distinct, res.Wall.Seconds())
 	}
 	u, mf, mc := 4, 1, 2
-	n := 1
+	n := 2
 	if c.Tier == "thorough" {
-		u, mf, mc, n = 5, 2, 3, 2
+		u, mf, mc, n = 5, 2, 3, 4
 	}
 	parts, err := c.partitions("GEN_C19.cfg", u, mf, mc)
 	if err != nil {
